@@ -87,7 +87,7 @@ class World:
     TICK = 1.0
     P0 = 100.0
 
-    def __init__(self, mode, monitors, tick=1.0, chunk=None, index=False):
+    def __init__(self, mode, monitors, tick=1.0, chunk=None, index=False, shares=None):
         self.mode = mode  # "cont" | "free"
         self.lg = RecLogger()
         self.comps = []
@@ -107,7 +107,10 @@ class World:
             m.setup({"tickSize": tick, "marketPrice": self.P0, "markets": [c.name for c in self.comps]})
         else:
             m = Market(0, None, None, "m", logger=self.lg)
-            m.setup({"tickSize": tick, "marketPrice": self.P0})
+            st = {"tickSize": tick, "marketPrice": self.P0}
+            if shares is not None:
+                st["outstandingShares"] = shares  # only a weight in index markets: says nothing about what may trade
+            m.setup(st)
         if chunk:
             m.chunk_size = chunk
         m._update_time(self.P0)
@@ -491,6 +494,8 @@ SEED_KW = {
     "tick01": (dict(tick=0.1), []),
     "tick1e5": (dict(tick=0.00001), []),
     # tick sizes that are not one digit times a power of ten
+    # a market whose outstandingShares (an index weight) is smaller than the volumes traded on it
+    "shares1": (dict(shares=1), [L(B, 99, 2), L(S, 101, 3)]),
     "quartertick": (dict(tick=0.25), []),
     "tick2_5": (dict(tick=2.5), []),
     # the market under test is an IndexMarket (two components; op XC stops / restarts a component)
